@@ -1944,32 +1944,59 @@ def rule_vec_writer(f, site):
 BUFFER_FIELDS = {"uri::Rsync": "bytes", "uri::Https": "uri"}
 
 
+MIN_OFFSET = {"uri::Rsync": 8, "uri::Https": 8}       # every offset field lies beyond "rsync://" / "https://" (the invariants above)
+
+
 def rule_invariant_offsets(f, site):
-    """P0-invariant: `self.buf[self.off..]`, `self.buf[..self.off]`, `self.buf[self.a..self.b]` where the offsets are the
-    type's own offset fields into its own buffer — in bounds by the invariant that only the reviewed writers (R-WHO)
-    can touch."""
-    if site.kind != "call:index" or len(site.ops) != 2:
+    """P0-invariant: `self.buf[self.off..]`, `self.buf[..self.off]`, `self.buf[self.a..self.b]`, `self.buf[c..self.off]`
+    with a constant c not beyond the scheme prefix, and `self.buf.split_at(self.off)`, where the offsets are the type's own
+    offset fields into its own buffer (the buffer field itself, or the value seen through its own as_str / as_slice /
+    Deref) — in bounds by the invariant that only the reviewed writers (R-WHO) can touch.  The buffer and the offsets
+    must belong to the *same* value: `other.buf[..self.off]` is not covered."""
+    if site.kind not in ("call:index", "call:split_at") or len(site.ops) != 2:
         return None
     base = peel(site.ops[0])
-    rng = site.ops[1]
-    if rng[0] != "agg" or rng[2] not in ("RangeFrom", "RangeTo", "Range"):
-        return None
-    # the buffer: self.<buffer field> (possibly seen through as_ref / deref / as_slice)
-    while base[0] == "call" and (base[3] or {}).get("name") in ("as_ref", "deref", "as_slice", "as_bytes") and len(base[2]) == 1:
+    if site.kind == "call:split_at":
+        bounds = [("end", site.ops[1])]
+        shape = "RangeTo"
+    else:
+        rng = site.ops[1]
+        if rng[0] != "agg" or rng[2] not in ("RangeFrom", "RangeTo", "Range"):
+            return None
+        bounds = list(rng[3])
+        shape = rng[2]
+    # the buffer: self.<buffer field> (possibly seen through as_ref / deref / as_slice), or the value itself seen through
+    # its own string / slice view
+    while base[0] == "call" and (base[3] or {}).get("name") in ("as_ref", "deref", "as_slice", "as_bytes", "as_str") and len(base[2]) == 1:
         base = peel(base[2][0])
-    if not (base[0] == "field" and len(base) > 3 and base[3] in BUFFER_FIELDS and base[2] == BUFFER_FIELDS[base[3]]
-            and peel(base[1])[0] in ("param", "upvar")):
+    adt = owner = None
+    if base[0] == "field" and len(base) > 3 and base[3] in BUFFER_FIELDS and base[2] == BUFFER_FIELDS[base[3]] \
+            and peel(base[1])[0] in ("param", "upvar"):
+        adt, owner = base[3], render(peel(base[1]))
+    elif base[0] == "param":
+        # `&self[..]` through Deref<Target = str>: the parameter must be of one of the invariant types
+        body = f.body(site.fn)
+        if body is not None:
+            for li in range(1, body.arg_count + 1):
+                if (body.local_name(li) or "_%d" % li) == base[1]:
+                    ty = (body.locals[li]["ty"] or "").lstrip("&").replace("mut ", "").strip()
+                    ty = re.sub(r"^'\w+ ", "", ty)
+                    if ty in BUFFER_FIELDS:
+                        adt, owner = ty, render(base)
+    if adt is None:
         return None
-    adt = base[3]
-    owner = render(peel(base[1]))
-    for _, v in rng[3]:
+    seen = {}
+    for nm, v in bounds:
         v = peel(v)
+        if v[0] == "const" and isinstance(v[1], int) and not isinstance(v[1], bool) and nm == "start" and 0 <= v[1] <= MIN_OFFSET[adt]:
+            seen[nm] = None
+            continue
         if not (v[0] == "field" and len(v) > 3 and v[3] == adt and v[2] in OFFSET_FIELDS.get(adt, ()) and render(peel(v[1])) == owner):
             return None
-    if rng[2] == "Range":
-        d = dict(rng[3])
+        seen[nm] = v[2]
+    if shape == "Range" and seen.get("start") is not None and seen.get("end") is not None:
         order = list(OFFSET_FIELDS[adt])
-        if order.index(peel(d["start"])[2]) > order.index(peel(d["end"])[2]):
+        if order.index(seen["start"]) > order.index(seen["end"]):
             return None
     return "slices the value's own buffer at its own offset field(s); their ordering and bounds are the type invariant kept by the reviewed writers"
 
